@@ -112,14 +112,15 @@ CHECKS = {
             "Cache.tla models cache.Verifier.upsertPublicKey as Get / expand / Put with the mutex released in between, N clients over one "
             "LRU; TLC explores all interleavings (3 clients x 2 upserts, capacities 1 and 2; 1.4 M states) for boundedness, no duplicates, "
             "index consistency, right key stored and used, and refinement of the sequential LRU; the non-atomic-Put variant is checked to "
-            "fail. Binding: (G) every lock-level schedule TLC generates for 2 clients x 2 upserts is enforced on real goroutines through the "
+            "fail; Apalache additionally proves these invariants inductive (any number of operations, fixed small parameters). Both the "
+            "AVX2 and the serial (purego) backend are exercised. Binding: (G) every lock-level schedule TLC generates for 2 clients x 2 upserts is enforced on real goroutines through the "
             "pre-lock gate hook and the recorded critical sections must equal it; (R) critical sections recorded under the mutex by the "
             "verif hook from 8 free-running goroutines per cache are validated against LRU.tla state by state (list, index, stored values); "
             "a concurrent API workload must reproduce the sequential results; everything runs under the Go race detector and any report "
             "is a violation.",
             "Trusts TLC/SANY, the hook placement (under the mutex, after the change), the Go race detector for the race half - it sees only "
             "the schedules that were executed, so absence of races is observed, not proved.",
-            "TLA+ model of the cache: exhaustive TLC over interleavings; TLC-generated schedules replayed via gate hook; trace validation of hook-recorded critical sections; race detector",
+            "TLA+ model of the cache: exhaustive TLC over interleavings and an Apalache inductive invariant; TLC-generated schedules replayed via gate hook; trace validation of hook-recorded critical sections; race detector",
             "5/C18"),
     "C13": ("model_checking",
             "Strobe.tla/Merlin.tla are parametric in the state cells and the permutation. Toy instance with an UNINTERPRETED permutation "
